@@ -338,8 +338,35 @@ type zzPadded2 struct {
 	I uint32
 }
 
+type zzWide struct {
+	L1, L2, L3, L4, L5, L6, L7 int64
+	I                          int32
+	L8                         int64 // crosses byte 64 of the run of scalars
+	W                          int16
+	C                          int8
+	D                          float64
+	S                          string
+	T                          uint16
+}
+
 func C03ContainersDeep() {
-	switch sym.Choose("shape", 7) {
+	switch sym.Choose("shape", 8) {
+	case 7:
+		// more than 64 bytes of consecutive scalars of mixed widths, then a string, then a scalar
+		var v zzWide
+		v.L1, v.L2, v.L3, v.L4, v.L5, v.L6, v.L7 = sym.I64("l1"), sym.I64("l2"), sym.I64("l3"), sym.I64("l4"), sym.I64("l5"), sym.I64("l6"), sym.I64("l7")
+		v.I, v.L8, v.W, v.C = sym.I32("i"), sym.I64("l8"), sym.I16("w"), sym.I8("c")
+		db := sym.F64("d")
+		v.D = math.Float64frombits(db)
+		v.S, v.T = sym.Str("s", 1), sym.U16("t")
+		spec := zzCat(zzLE64(uint64(v.L1)), zzLE64(uint64(v.L2)), zzLE64(uint64(v.L3)), zzLE64(uint64(v.L4)), zzLE64(uint64(v.L5)), zzLE64(uint64(v.L6)), zzLE64(uint64(v.L7)),
+			zzLE32(uint32(v.I)), zzLE64(uint64(v.L8)), zzLE16(uint16(v.W)), []byte{byte(v.C)}, zzLE64(db), zzStr(v.S), zzLE16(v.T))
+		var back zzWide
+		zzCheck("wide-scalar-struct", "(lllllllilwcdsW)", v, spec, &back, func() bool {
+			ok := sym.And(sym.And(back.L1 == v.L1, back.L7 == v.L7), sym.And(back.I == v.I, back.L8 == v.L8))
+			ok = sym.And(ok, sym.And(sym.And(back.W == v.W, back.C == v.C), math.Float64bits(back.D) == db))
+			return sym.And(ok, sym.And(sym.EqStr(back.S, v.S), back.T == v.T))
+		})
 	case 4:
 		// entries whose in-memory size (alignment padding) differs from their 9 wire bytes
 		n := 1 + sym.Choose("n", 2)
